@@ -81,7 +81,9 @@ int lastCrashPhase() { return g_lastPhase; }
 
 size_t runForkedCases(size_t n, const std::string& outPath, int secondsPerCase, const std::function<void(size_t, std::string&)>& fn,
 					  const std::function<void(size_t, const std::string&, FILE*)>& onCrash, size_t memLimitMB) {
-	size_t start = 0, crashes = 0;
+	size_t start = 0, crashes = 0, timeouts = 0;
+	const char* mt = getenv("NVH_MAX_TIMEOUTS");
+	size_t maxTimeouts = mt && *mt ? strtoul(mt, nullptr, 10) : 12;
 	std::string markPath = outPath + ".mark";
 	while (start < n) {
 		fflush(stdout);
@@ -145,6 +147,12 @@ size_t runForkedCases(size_t n, const std::string& outPath, int secondsPerCase, 
 		onCrash((size_t) at, why, out);
 		fclose(out);
 		start = (size_t) at + 1;
+		// a library that hangs on case after case would keep this run going for hours: after a dozen timeouts the remaining
+		// cases are not run (the timeouts recorded so far are what the check reports)
+		if (why == "Timeout" && ++timeouts >= maxTimeouts) {
+			fprintf(stderr, "runForkedCases: %zu cases timed out, %zu remaining cases not run\n", timeouts, n - start);
+			break;
+		}
 	}
 	unlink(markPath.c_str());
 	return crashes;
